@@ -218,3 +218,34 @@ Definition val_exp (x : exp_sp) : Z :=
 Definition val_double_num (m : decimal_sp) (ex : option exp_sp) : decnum :=
   let v := val_decimal m in
   mk_decnum (dn_neg v) (dn_coeff v) (dn_exp v + match ex with None => 0 | Some x => val_exp x end).
+
+(* ---- candidate type lists: the documented priority --------------------------------
+   "types are tried in this order: int, bool, float, Decimal, datetime, date, time,
+   XmlTime, XmlDate, XmlDateTime, XmlDuration, XmlPeriod, QName, str" — strict types
+   first, str last.  Names as code points. *)
+Definition documented_priority : list str :=
+  [ [105;110;116]; [98;111;111;108]; [102;108;111;97;116]; [68;101;99;105;109;97;108];
+    [100;97;116;101;116;105;109;101]; [100;97;116;101]; [116;105;109;101];
+    [88;109;108;84;105;109;101]; [88;109;108;68;97;116;101]; [88;109;108;68;97;116;101;84;105;109;101];
+    [88;109;108;68;117;114;97;116;105;111;110]; [88;109;108;80;101;114;105;111;100];
+    [81;78;97;109;101]; [115;116;114] ].
+
+(* the first type, in documented order, that is a candidate and accepts *)
+Fixpoint choose_by_priority {V} (order : list str) (candidates : list str) (accepts : str -> option V) : option V :=
+  match order with
+  | [] => None
+  | t :: r =>
+      if existsb (str_eqb t) candidates
+      then match accepts t with
+           | Some v => Some v
+           | None => choose_by_priority r candidates accepts
+           end
+      else choose_by_priority r candidates accepts
+  end.
+
+(* the value spaces of the integer types DataType.from_value may choose *)
+Definition xsd_integer_type_contains (name : str) (z : Z) : bool :=
+  if str_eqb name [83;72;79;82;84] then ((-32768 <=? z) && (z <=? 32767))%Z                                   (* short *)
+  else if str_eqb name [73;78;84] then ((-2147483648 <=? z) && (z <=? 2147483647))%Z                            (* int *)
+  else if str_eqb name [76;79;78;71] then ((-9223372036854775808 <=? z) && (z <=? 9223372036854775807))%Z       (* long *)
+  else str_eqb name [73;78;84;69;71;69;82].                                                                     (* integer *)
